@@ -4,6 +4,7 @@ import (
 	"fmt"
 	public_types "lunar/engine/streams/public-types"
 	"lunar/toolkit-core/clock"
+	"lunar/toolkit-core/verifhook"
 	"sync"
 	"time"
 
@@ -34,6 +35,8 @@ func (p *memoryState[T]) WithClock(clock clock.Clock) public_types.SharedStateI[
 }
 
 func (p *memoryState[T]) AtomicWindowReset(key string, _ time.Duration) error {
+	verifhook.Yield("state.before:AtomicWindowReset", key)
+	defer verifhook.Yield("state.after:AtomicWindowReset", key)
 	p.mutex.Lock()
 	defer p.mutex.Unlock()
 
@@ -98,6 +101,8 @@ func (p *memoryState[T]) AtomicSAddWithMaxValuesAllowed(
 	key, value string,
 	maxAllowed int64,
 ) (bool, error) {
+	verifhook.Yield("state.before:AtomicSAddWithMaxValuesAllowed", key)
+	defer verifhook.Yield("state.after:AtomicSAddWithMaxValuesAllowed", key)
 	p.mutex.Lock()
 	defer p.mutex.Unlock()
 
@@ -126,6 +131,8 @@ func (p *memoryState[T]) AtomicSAddWithMaxValuesAllowed(
 }
 
 func (p *memoryState[T]) SCard(key string) (int64, error) {
+	verifhook.Yield("state.before:SCard", key)
+	defer verifhook.Yield("state.after:SCard", key)
 	p.mutex.Lock()
 	defer p.mutex.Unlock()
 
@@ -142,6 +149,8 @@ func (p *memoryState[T]) SCard(key string) (int64, error) {
 }
 
 func (p *memoryState[T]) SMembers(key string) ([]string, error) {
+	verifhook.Yield("state.before:SMembers", key)
+	defer verifhook.Yield("state.after:SMembers", key)
 	p.mutex.Lock()
 	defer p.mutex.Unlock()
 
@@ -165,6 +174,8 @@ func (p *memoryState[T]) SMembers(key string) ([]string, error) {
 }
 
 func (p *memoryState[T]) SRem(key string, value string) error {
+	verifhook.Yield("state.before:SRem", key)
+	defer verifhook.Yield("state.after:SRem", key)
 	p.mutex.Lock()
 	defer p.mutex.Unlock()
 
@@ -196,6 +207,8 @@ func (p *memoryState[T]) AtomicWindowResetIn(
 	key string,
 	windowSize time.Duration,
 ) (time.Duration, bool, error) {
+	verifhook.Yield("state.before:AtomicWindowResetIn", key)
+	defer verifhook.Yield("state.after:AtomicWindowResetIn", key)
 	p.mutex.Lock()
 	defer p.mutex.Unlock()
 
@@ -226,6 +239,8 @@ func (p *memoryState[T]) AtomicIncWindow(
 	windowSize time.Duration,
 	maxAllowedInWindow int64,
 ) (int64, bool, error) {
+	verifhook.Yield("state.before:AtomicIncWindow", key)
+	defer verifhook.Yield("state.after:AtomicIncWindow", key)
 	p.mutex.Lock()
 	defer p.mutex.Unlock()
 	windowRestarted := false
